@@ -167,7 +167,7 @@ def nm_install(ctx, w, s):
     return dict(pop=V, cpop=CV, en=E, best=list(V[0]), bestE=E[0])
 
 
-def nm_step(cfg, dim, oblig, adaptive=False, evalmon=False):
+def nm_step(cfg, dim, oblig, adaptive=False, evalmon=False, restart=False):
     def h(ctx):
         w = L.World(ctx, dim, **CONFIGS[cfg])
         s = nm_solver(dim)
@@ -180,11 +180,13 @@ def nm_step(cfg, dim, oblig, adaptive=False, evalmon=False):
         pre0 = nm_install(ctx, w, s)
         pre = snapshot(s, w)
         pre.update(pre0)
+        if restart:
+            s.Finalize()          # a stopped run that is continued: the next Step re-decorates the objective
         msg = s.Step(callback=w.callback, adaptive=adaptive)
         post = snapshot(s, w)
         ctx.observe('bestEnergy', post['bestE'])
         ctx.observe('best', post['best'])
-        return oblig(Rec('nm-step', ctx, w, s, pre=pre, post=post, msg=msg, evalmon=em))
+        return oblig(Rec('nm-step', ctx, w, s, pre=pre, post=post, msg=msg, evalmon=em, restart=restart))
     return h
 
 
